@@ -34,6 +34,11 @@ Monitors on every `should_prune()` return (True is a violation when a protection
   bracket          at the end: the Hyperband bracket of every trial, computed by the pruner's own
                    bracket function, is the same on another storage with another history for the
                    same (study name, trial number)
+  hyperband-init   a HyperbandPruner object whose lazy initialisation ran more than once (workers
+                   that are threads share the Study and its pruner, as study.optimize(n_jobs=k)
+                   does): doubled bracket tables change every trial's bracket or make the bracket
+                   function hit its "unreachable" assertion in ask()/should_prune()/tell()
+  raised           any other exception raised from inside optuna/pruners during a worker's call
 A PatientPruner wrapping pruner X inherits all "never True" protections of X.
 """
 from __future__ import annotations
@@ -50,7 +55,7 @@ ID = "C16"
 LEVEL = "exploration"
 BUDGET = {"quick": 50, "thorough": 900}
 
-DEPLOYMENTS = [("mem", 7.0), ("cached", 1.2), ("jf-sym", 0.8)]
+DEPLOYMENTS = [("mem", 8.0), ("cached", 0.3), ("jf-sym", 0.9)]
 
 EVIDENCE = {
     "rule": "one case = one simulated execution of a generated plan: deployment, pruner with all parameters, direction, pool of finished trials, 1-4 worker scripts (report / should_prune / tell / die), scheduler decisions. Non-trivial = at least one context switch between workers and at least 3 should_prune() results were checked; distinct = distinct digests over every scheduling decision, reported value and should_prune result.",
@@ -241,7 +246,10 @@ def shrink_paths(plan: dict) -> list[tuple]:
 
 
 def signature_class(sig: str) -> str:
-    return "|".join(sig.split("|")[:4])
+    f = sig.split("|")
+    if len(f) > 2 and f[2] == "hyperband-init":
+        return "%s|hyperband-init" % f[0]  # one class whatever the deployment / wrapper
+    return "|".join(f[:4])
 
 
 def _spec_name(spec: dict | None) -> str:
